@@ -94,6 +94,8 @@ Definition SIG_EVENT := 5%N.
 Definition SIG_MALFORMED := 6%N.
 Definition SIG_MODEL := 7%N.       (* differs from the model in a way none of the above names *)
 Definition SIG_FIN := 8%N.         (* the FIN of an established connection got no acknowledgement *)
+Definition SIG_DATA := 9%N.        (* data on an established connection got no acknowledgement of its last byte *)
+Definition SIG_NOEVENT := 10%N.    (* an established connection that pushed data or closed was never reported *)
 
 (* every frame emitted in answer to segment g *)
 Definition frame_sig (g : seg) (fr : bytes) : N :=
@@ -174,6 +176,33 @@ Definition fin_answered (g : seg) (so : sobs) : bool :=
                      f_ok v && hasf (f_flags v) ACK && (f_ack v =? u32 (g_seq g + zlen (g_payload g) + 1)))
           (so_frames so).
 
+(* in-order data on an established connection (the client has sent neither FIN nor RST) is
+   acknowledged up to its last byte, whatever the listener's own half of the connection does *)
+Definition data_due (seen : list (op * sobs)) (g : seg) : bool :=
+  negb (eqb_bytes (g_payload g) []) && hasf (g_flags g) ACK && negb (hasf (g_flags g) SYN) &&
+  negb (hasf (g_flags g) RST) &&
+  match fold_left (cstep g) seen CNone with CEst => true | _ => false end.
+
+Definition data_answered (g : seg) (so : sobs) : bool :=
+  existsb (fun fr => let v := view fr in
+                     f_ok v && hasf (f_flags v) ACK &&
+                     ((f_ack v =? u32 (g_seq g + zlen (g_payload g))) ||
+                      (hasf (g_flags g) FIN && (f_ack v =? u32 (g_seq g + zlen (g_payload g) + 1)))))
+          (so_frames so).
+
+(* the generic reader reports a connection once its client pushed data or closed: an event
+   naming exactly this connection exists among the observations (earlier or later) *)
+Definition names (e : ev) (g : seg) : bool :=
+  ip_eqb (e_sip e) (g_sip g) && ip_eqb (e_dip e) (g_dip g) && (e_sport e =? g_sport g) && (e_dport e =? g_dport g).
+
+Definition reported (g : seg) (obs : list sobs) : bool :=
+  existsb (fun so => match so_ev so with Some e => names e g | None => false end) obs.
+
+Definition report_due (seen : list (op * sobs)) (g : seg) : bool :=
+  (hasf (g_flags g) PSH || hasf (g_flags g) FIN) && hasf (g_flags g) ACK && negb (hasf (g_flags g) SYN) &&
+  negb (hasf (g_flags g) RST) && negb (decoded_port (g_dport g)) &&
+  match fold_left (cstep g) seen CNone with CEst => true | _ => false end.
+
 Fixpoint ops_sig (seen : list (op * sobs)) (ops : list op) (obs : list sobs) : N :=
   match ops, obs with
   | [], [] => 0
@@ -183,6 +212,10 @@ Fixpoint ops_sig (seen : list (op * sobs)) (ops : list op) (obs : list sobs) : N
                  (if hasf (g_flags g) SYN && negb (hasf (g_flags g) ACK) && negb (Nat.eqb (length (so_frames so)) 1)
                   then SIG_SYNACK else 0) else s in
       let s := if (s =? 0)%N then (if fin_due seen g && negb (fin_answered g so) then SIG_FIN else 0) else s in
+      let s := if (s =? 0)%N then (if data_due seen g && negb (data_answered g so) then SIG_DATA else 0) else s in
+      let s := if (s =? 0)%N then
+                 (if report_due seen g && negb (reported g (map snd seen) || reported g ro) then SIG_NOEVENT else 0)
+               else s in
       if (s =? 0)%N then ops_sig (seen ++ [(OSeg g fr, so)]) r ro else s
   | OReader k :: r, so :: ro =>
       let s := first_nz (map reader_frame_sig (so_frames so)) in
